@@ -6,7 +6,7 @@ import alias_util as A
 import umap, umap.umap_ as U
 
 RULE = ("scenarios (dense / CSR input, unsupervised, categorical and continuous targets, densMAP, set_op_mix_ratio 0.3 with an active "
-        "disconnection distance, NN-descent path; thorough adds precomputed / cosine / larger n / more datasets) x one base configuration and "
+        "disconnection distance, NN-descent path (also on data where it is genuinely approximate); thorough adds precomputed / cosine / larger n / more datasets) x one base configuration and "
         "variants differing in exactly one of n_epochs (0, 1, 10, 11, 60, None, lists), learning_rate, init (random / pca / spectral / float32 and "
         "float64-F arrays), n_components, min_dist, spread, repulsion_strength, negative_sample_rate; every fit is observed through a wrapper of "
         "simplicial_set_embedding (graph buffers hashed at entry and after fit) and is one Coq case: the machine run on the fit's attribute "
@@ -46,6 +46,9 @@ def make_scenario(name, rs, n, dim):
         kw.update(set_op_mix_ratio=0.3, disconnection_distance=float(np.quantile(D[D > 0], 0.7)))
     if name == "nndescent":
         kw["force_approximation_algorithm"] = True
+    if name == "nndescent_hard":      # high-dimensional, few neighbours: NN-descent is genuinely approximate, so the graph depends on every random draw made before it
+        X = rs.normal(size=(400, 30)).astype(np.float32)
+        kw.update(force_approximation_algorithm=True, n_neighbors=4)
     if name == "precomputed":
         X = np.sqrt(((X[:, None] - X[None]) ** 2).sum(-1)).astype(np.float32); kw["metric"] = "precomputed"
     if name == "cosine":
@@ -275,7 +278,7 @@ def run(ctx):
         ctx.notes.append("probed environment differs from the model's assumptions: %s" % env)
     # ---- the property relation -----------------------------------------------------------------------------------------
     quick = ctx.tier == "quick"
-    names = ["dense", "dense_cat", "dense_cont", "densmap", "sparse", "sparse_cat", "mix_disc", "nndescent"]
+    names = ["dense", "dense_cat", "dense_cont", "densmap", "sparse", "sparse_cat", "mix_disc", "nndescent", "nndescent_hard"]
     if not quick:
         names += ["precomputed", "cosine", "cat_w09", "sparse_cont"]
     terms, descs = [], []
